@@ -34,6 +34,7 @@ RULE = (
     ' Round 7: lone surrogates, NUL, very long and non-ASCII-digit texts per field; odd keys enumerated.'
     ' Round 8: raw texts no dump produces (repeated keys...) and binary container formats.'
     ' Round 9: missing file while the registry holds text the file encoding cannot encode.'
+    ' Round 10: `prior_session` (the Persistence object was started and stopped before) and `debug_log` for special paths and a set of contents.'
 )
 ASSUMPTIONS = ["real files in a scratch directory; running as root, so permission faults are represented by the directory case only"]
 SHRINK_STRINGS = ("data",)
